@@ -7,7 +7,7 @@ from .C01 import check_zero_fill
 
 META = {
     'title': 'BLAKE/BLAKE2: pi-digit constants, sigma, G terms, counter source and placement, finalisation flag, parameter block, padding',
-    'expected_min': 20,
+    'expected_min': 296,
     'explanation': 'PI is compared with hexadecimal digits of pi computed by a Machin formula, sigma with the submission; initstate/update/iterblocks/'
                    'paramblock/treeinit/__call__ of Blake and Blake2 are normalised and compared with restatements of the BLAKE submission and RFC 7693 '
                    '(G with rotation tuples per word size, column/diagonal index order, counter words t0,t0,t1,t1 from padmethod.bitcnt, BLAKE2 counter from the '
